@@ -20,8 +20,9 @@ open Tak Tak.Bot
 (and the observer), every board size, every clock, every interleaving `evs` – whatever the AI answers and
 whatever the server sends.  `Inv` (in `Spec/Bot.lean`) says: (1) unless the loop has panicked, `g.Positions`/`g.Moves`/`g.p`
 equal the server's authoritative history; (2) every move ever passed to `SendCommand` was sent when the record's
-position was the server's current position, is legal there, was sent with the bot to move, and is the answer of
-the thinker that was started on exactly that position; (3) nothing else was transmitted as a move. -/
+position was the server's current position, the game was not over there, the move is legal there, it was sent with
+the bot to move, and it is the answer of the thinker that was started on exactly that position; (3) nothing else was
+transmitted as a move. -/
 theorem bot_inv (cfg : Conf) (hfix : cfg.fixed = true) (size : Nat) (secs : Int) (evs : List Ev) :
     Inv cfg (run cfg (start cfg size secs) evs) :=
   (sinv_run hfix (sinv_start cfg size secs) evs).core.inv
@@ -63,6 +64,15 @@ theorem bot_no_panic (cfg : Conf) (hfix : cfg.fixed = true) (size : Nat) (secs :
   by_cases hend : ∃ e ∈ evs, isEnd cfg e
   · rw [h1 hend] at he; cases he
   · rw [h2 hend] at he; cases he
+
+/-- **Nothing is transmitted into a finished game.**  `Position.Move` does not look at the end of the game, so a
+slide would still be "legal" on a full board; what keeps the bot quiet is that the thinker of a finished position
+is parked (`handleMove`: `if over, _ := p.GameOver(); over { <-moveCtx.Done() }`) whatever the result – road, flat
+count or draw.  For every interleaving: at the moment of each transmission the server's game (= the record's
+position) was not over. -/
+theorem silent_after_game_over (cfg : Conf) (hfix : cfg.fixed = true) (size : Nat) (secs : Int) (evs : List Ev) :
+    ∀ r ∈ (run cfg (start cfg size secs) evs).log, r.srvAt = some r.recAt ∧ r.recAt.gameOver.1 = false :=
+  fun r hr => ⟨((bot_inv cfg hfix size secs evs).sends r hr).current, ((bot_inv cfg hfix size secs evs).sends r hr).live⟩
 
 /-- **An observer never transmits a move** (`ObserveGame`: `g.Color = NoColor`), in any interleaving. -/
 theorem observer_silent (cfg : Conf) (hfix : cfg.fixed = true) (hobs : cfg.color = .none) (size : Nat) (secs : Int)
@@ -159,6 +169,32 @@ example :
        .deliver ["Game#7", "P", "E1"] (some (flat 4 0)) false, .deliver ["Game#7", "Undo"] none false,
        .aiReturns 1 (flat 3 3), .deliver ["Game#7", "Abandoned.", "x", "quit"] none false]
     s.sent = [] ∧ s.moves = [flat 0 0] ∧ s.status = .ended ∧ s.old.length = 2 := by
+  decide +kernel
+
+/-- a drawn game: 3×3, `b3 a3 c3 a2 Sb2 c2 a1 b1 c1` fills the board with four flats each.  The bot is Black; after
+White's last move it is nominally Black's turn, the clock line re-enters `handleMove` before `Over` arrives – and
+the thinker is parked: the lock is not taken, an "answer" (the slide `b3<`, which `Position.Move` would accept) has
+nobody to deliver it, nothing is transmitted; `Over` then ends the loop. -/
+def drawTrace : List Ev :=
+  let gs := "Game#100"
+  let srv (w : String) (m : Move) : List Ev :=
+    [.deliver ([gs, "P"] ++ w.splitOn " ") (some m) false, .deliver [gs, "Time", "590", "590"] none false]
+  srv "B3" (flat 1 2) ++ [.grant 1, .aiReturns 1 (flat 0 2)] ++
+  srv "C3" (flat 2 2) ++ [.grant 3, .aiReturns 3 (flat 0 1)] ++
+  srv "B2 W" { x := 1, y := 1, type := Facts.mtPlaceStanding, slides := 0 } ++ [.grant 5, .aiReturns 5 (flat 2 1)] ++
+  srv "A1" (flat 0 0) ++ [.grant 7, .aiReturns 7 (flat 1 0)] ++
+  srv "C1" (flat 2 0) ++
+  [.grant 9, .aiReturns 9 { x := 1, y := 2, type := Facts.mtSlideLeft, slides := 1 }, .timerFires]
+
+def black : Conf := { basis := zeroBasis, color := .black, gameStr := "Game#100", fixed := true }
+
+example :
+    let s := run black (start black 3 600) drawTrace
+    s.p.gameOver = (true, .none) ∧ s.p.toMove = .black ∧ s.listening = true ∧ s.cur.st = .idle ∧ holders s = 0 ∧
+    s.sent = [.move (flat 0 2), .move (flat 0 1), .move (flat 2 1), .move (flat 1 0)] ∧ s.moves.length = 9 ∧
+    Legal zeroBasis s.p { x := 1, y := 2, type := Facts.mtSlideLeft, slides := 1 } ∧
+    s.status = .running ∧
+    (run black s [.deliver ["Game#100", "Over", "1/2-1/2"] none false]).status = .ended := by
   decide +kernel
 
 /-- in `playTrace` a thinker does hold the lock at times (after the 13th event thinker 4 is inside `GetMove`) -/
